@@ -537,10 +537,26 @@ func (w *World) appendViaEntryAPI(n *Node, pl []byte, heads []string, maxT int) 
 	if ct := n.Log.Clock.GetTime(); ct >= t {
 		t = ct + 1
 	}
-	tmpl := &entry.Entry{LogID: w.LogID, Payload: pl, Next: next, Refs: []cid.Cid{}, Clock: entry.NewLamportClock(n.W.ID.PublicKey, t)}
+	var tmpl iface.IPFSLogEntry = &entry.Entry{LogID: w.LogID, Payload: pl, Next: next, Refs: []cid.Cid{}, Clock: entry.NewLamportClock(n.W.ID.PublicKey, t)}
+	if own := liveSlice(n.Log.GetEntries()); len(own) > 0 && r.Choose("derive-template", 3) == 0 {
+		// the application makes the new entry out of one it has: a copy with payload, predecessors and clock replaced
+		d := own[r.Choose("template-of", len(own))].Copy()
+		d.SetPayload(pl)
+		d.SetNext(next)
+		d.SetRefs([]cid.Cid{})
+		d.SetClock(entry.NewLamportClock(n.W.ID.PublicKey, t))
+		tmpl = d
+		r.Probe("appended-entry-derived-from-a-copy")
+	}
 	e, err := entry.CreateEntryWithIO(w.ctx, w.St, n.W.ID, tmpl, nil, w.IO)
 	if err != nil {
 		r.Violate(w.P.Prop+":create-entry", "CreateEntryWithIO failed for an entry on %d heads: %v", len(next), err)
+	}
+	// what the entry API acknowledged is in the store, under the identifier it returned
+	if dec, err := entry.FromMultihashWithIO(w.ctx, w.St, e.GetHash(), n.W.ID.Provider, w.IO); err != nil {
+		r.Violate(w.P.Prop+":acknowledged-lost-write", "the entry CreateEntryWithIO returned (payload %q, time %d) cannot be read from the store under its identifier: %v", pl, t, err)
+	} else if d := fieldDiff(e, dec); d != "" {
+		r.Violate(w.P.Prop+":acknowledged-other-content", "the block under the identifier CreateEntryWithIO returned (payload %q, time %d) holds another entry: differs in %s", pl, t, d)
 	}
 	me := w.register(e)
 	o := w.logOpts()
